@@ -376,7 +376,15 @@ fn splice(printed: &str, d: &Directive, nloops: usize, nrets: usize) -> Result<S
             {
                 let h = head.trim_start();
                 let h = h.strip_prefix("for ").or_else(|| h.strip_prefix("while ")).unwrap_or("");
-                let v: String = h.chars().take_while(|c| c.is_alphanumeric() || *c == '_').collect();
+                let mut v: String = h.chars().take_while(|c| c.is_alphanumeric() || *c == '_').collect();
+                if head.trim_start().starts_with("while ") {
+                    // `while <guards> && <index> < <bound>`: the index is the identifier just before the first ` < `
+                    if let Some(p) = h.find(" < ") {
+                        let before = &h[..p];
+                        let id: String = before.chars().rev().take_while(|c| c.is_alphanumeric() || *c == '_').collect::<String>().chars().rev().collect();
+                        if !id.is_empty() { v = id; }
+                    }
+                }
                 // `$hi`: the loop's upper bound as written after `..` (for-range loops) or after `<` (while loops)
                 let hi: String = if let Some(p) = h.find("..") { h[p + 2..].trim().to_string() } else if let Some(p) = h.find('<') { h[p + 1..].trim().to_string() } else { String::new() };
                 loop_hi.insert(k, hi.clone());
@@ -551,10 +559,7 @@ fn canary_for(sig: &syn::Signature, header: &str, imp: Option<&syn::ItemImpl>) -
                 if let syn::Pat::Ident(pi) = &mut *t.pat { pi.mutability = None; }
                 if let syn::Type::Reference(r) = &mut *t.ty { r.mutability = None; }
             }
-            syn::FnArg::Receiver(r) => {
-                if r.reference.is_some() { r.mutability = None; }
-                else { *a = syn::parse_quote!(&self); }
-            }
+            syn::FnArg::Receiver(_) => { *a = syn::parse_quote!(&self); }
         }
     }
     let f = syn::ItemFn { attrs: vec![], vis: syn::Visibility::Inherited, sig, block: Box::new(syn::parse_quote!({})) };
@@ -1013,6 +1018,7 @@ fn main() {
                     if fl.0 > 0 { n.rules.push(norm::RuleApp { rule: "N25".into(), line: sp.0, note: format!("{} qualified path(s) cut to the last segment", fl.0) }); }
                 }
                 { let k = inst_asref(&mut f.sig, &mut f.block); if k > 0 { n.rules.push(norm::RuleApp { rule: "N27".into(), line: sp.0, note: format!("{k} AsRef<T> type parameter(s) instantiated at &T") }); } }
+                if let Some((w, ty)) = &d.effect_param { norm::thread_effects(&mut f.sig, &mut f.block, w, ty, &d.effects, &mut n); }
                 if emit_canaries { canary = canary_for(&f.sig, &d.header, Some(&imp)); }
                 n.run_fn(&mut f.sig, &mut f.block, d.ret.is_some());
                 imp.attrs.clear();
